@@ -70,6 +70,11 @@ type DynCall struct {
 	Clause  *Clause
 	Ensures bool // assumed after the call instead of required before it
 	OnPanic bool // assumed of the state in which the call is left by a panic
+	// Like: "dyncall <field> like <(*T).method>": a call through a function value looked up in the map held by
+	// field <field> of x is treated as the call x.method(args) under method's contract.  Sound only when every
+	// function stored in that map is a method bound to x whose contract has the same clauses (audited, see
+	// auditDynLike).
+	Like string
 }
 
 // Witness: a ghost out-parameter; "witness s = expr after callee#n" binds s to expr evaluated right
@@ -136,6 +141,7 @@ func (cs *ContractSet) parseFile(path, pkgPath string) error {
 	var group []*Contract // other members of a "funcs" group: they receive a copy of cur's clauses at the end
 	var groups [][]*Contract
 	var leaders []*Contract
+	var alsos []*Contract // "also <func>" blocks: clauses added to a contract declared elsewhere in the file (e.g. by a funcs group)
 	flush := func() {
 		if cur != nil && len(group) > 0 {
 			groups = append(groups, group)
@@ -151,6 +157,40 @@ func (cs *ContractSet) parseFile(path, pkgPath string) error {
 				*c = *l
 				c.Key, c.File, c.Line = key, file, line
 			}
+		}
+		for _, a := range alsos {
+			t := cs.ByKey[a.Key]
+			if t == nil {
+				continue
+			}
+			t.Requires = append(append([]*Clause{}, t.Requires...), a.Requires...)
+			t.Ensures = append(append([]*Clause{}, t.Ensures...), a.Ensures...)
+			t.OnPanic = append(append([]*Clause{}, t.OnPanic...), a.OnPanic...)
+			t.Witnesses = append(append([]*Witness{}, t.Witnesses...), a.Witnesses...)
+			t.PreCalls = append(append([]*DynCall{}, t.PreCalls...), a.PreCalls...)
+			t.DynCalls = append(append([]*DynCall{}, t.DynCalls...), a.DynCalls...)
+			t.MayPanic = append(append([]string{}, t.MayPanic...), a.MayPanic...)
+			t.Unfold = append(append([]string{}, t.Unfold...), a.Unfold...)
+			t.Uses = append(append([]string{}, t.Uses...), a.Uses...)
+			loops := map[int]*LoopSpec{}
+			for k, l := range t.Loops {
+				loops[k] = l
+			}
+			for k, l := range a.Loops {
+				n := &LoopSpec{}
+				if o := loops[k]; o != nil {
+					*n = *o
+					n.Invariants = append([]*Clause{}, o.Invariants...)
+					n.Exits = append([]*Clause{}, o.Exits...)
+				}
+				n.Invariants = append(n.Invariants, l.Invariants...)
+				n.Exits = append(n.Exits, l.Exits...)
+				if l.Decreases != nil {
+					n.Decreases = l.Decreases
+				}
+				loops[k] = n
+			}
+			t.Loops = loops
 		}
 	}()
 	ln := 0
@@ -230,8 +270,20 @@ func (cs *ContractSet) parseFile(path, pkgPath string) error {
 			cs.Globals = append(cs.Globals, &GlobalInv{Pkg: pkgPath, Clause: &Clause{Label: label, Text: text, Expr: e, File: path, Line: ln}})
 			continue
 		}
-		if word == "funcs" || word == "func" {
+		if word == "funcs" || word == "func" || word == "also" {
 			flush()
+		}
+		if word == "also" {
+			// "also <func>": the clauses that follow are added to the contract of <func>, declared elsewhere in this file
+			group = nil
+			key := strings.TrimSpace(rest)
+			full := key
+			if pkgPath != "" && !strings.Contains(key, "/") && !isQualifiedStd(key) {
+				full = pkgPath + "." + key
+			}
+			cur = &Contract{Key: full, Pkg: pkgPath, Loops: map[int]*LoopSpec{}, Arith: "int", File: path, Line: ln, Unroll: map[int]int{}}
+			alsos = append(alsos, cur)
+			continue
 		}
 		if word == "funcs" {
 			// group: the clauses that follow apply to every listed function (one contract each)
@@ -436,6 +488,10 @@ func (cs *ContractSet) parseFile(path, pkgPath string) error {
 		case "dyncall":
 			fld, r2 := splitWord(rest)
 			kw, r3 := splitWord(r2)
+			if kw == "like" {
+				cur.DynCalls = append(cur.DynCalls, &DynCall{Field: fld, Like: strings.TrimSpace(r3), Clause: &Clause{Text: "like " + r3}})
+				break
+			}
 			if kw != "requires" && kw != "ensures" && kw != "onpanic" {
 				return fmt.Errorf("%s:%d: dyncall <field> requires|ensures|onpanic <expr>", path, ln)
 			}
